@@ -125,6 +125,23 @@ def other_keyword_cases():
                 docs.append({"doc": {place: b}, "cls": "type", "path": (place,), "expect": "REJ"})
         out.append(Case("c03ok%d" % n, root, docs, fam="other-keywords/%s" % sorted(ex)[0]))
         n += 1
+    # objects without `properties` whose values are typed by additionalProperties, with keywords beside it (a `required` list, a description,
+    # limits on the number of keys): the values keep their type - at a property, two levels down, behind a reference and as array items
+    for vi, (vs, goodv, badvs) in enumerate((({"type": "integer"}, 80, ["80", 1.5, True, [80], {"a": 1}]), ({"type": "string"}, "s", [5, False, ["s"]]),
+                                              ({"$ref": "#/$defs/Num"}, 1.5, ["1.5", True, [1]]), ({"type": "boolean"}, True, [1, "true"]))):
+        for ei, ex in enumerate(({"required": ["http"]}, {"required": ["http", "other"]}, {"minProperties": 1}, {"description": "ports by name"}, {})):
+            m = dict({"type": "object", "additionalProperties": vs}, **ex)
+            root = {"type": "object", "$defs": {"Num": {"type": "number"}, "Ports": m},
+                    "properties": {"ports": m, "deep": {"type": "object", "properties": {"inner": m}}, "ref": {"$ref": "#/$defs/Ports"}, "list": {"type": "array", "items": m}}}
+            gm = {"http": goodv, "other": goodv}
+            docs = [{"doc": {"ports": gm, "deep": {"inner": gm}, "ref": gm, "list": [gm]}, "cls": "valid", "path": (), "expect": "ACC"}]
+            for bv in badvs:
+                for key in ("http", "zzz"):
+                    bm = dict(gm, **{key: bv})
+                    for place, w in (("ports", lambda v: v), ("deep", lambda v: {"inner": v}), ("ref", lambda v: v), ("list", lambda v: [v])):
+                        docs.append({"doc": {place: w(bm)}, "cls": "type", "path": (place, key), "expect": "REJ"})
+            out.append(Case("c03mp%d" % n, root, docs, fam="other-keywords/typed-map-with-%s" % (sorted(ex)[0] if ex else "nothing")))
+            n += 1
     return out
 
 
